@@ -11,7 +11,8 @@
    FULL STATEMENT (not provable for an executable model, because the singular values of a d x d matrix are not
    rational functions of the data):  for all tie-free real samples X (N > k+1), orthogonal Q, shifts t, a > 0:
        H(X + t) = H(X),  H(X Q) = H(X),  H(a X) = H(X) + d ln a,  H(X[perm]) = H(X),  H = published formula.
-   PROVED: the same identities for every rational sample, every rational shift, every positive rational factor,
+   PROVED (the theorems named ..._partial carry the hypotheses on the SVD data; the others are unconditional):
+   the same identities for every rational sample, every rational shift, every positive rational factor,
    every map that multiplies all pairwise squared distances by one factor (in particular every rational orthogonal
    map), under the hypotheses that the SVD data transform as true singular values / ellipsoid counts do
    (unchanged by isometries and row order, homogeneous of degree 2 in the squares) and that no `> 1e-12` guard
@@ -48,16 +49,16 @@ Print Assumptions C12_unit_ball_constants.
 
 (* the estimate does not depend on the order of the samples (any N, d, k), provided the SVD data depend on the
    neighbour set only *)
-Theorem C12_sample_order_invariant : forall (sv2 : Z -> point -> list point -> list Q) (ins : Z -> point -> list point -> Z), oracle_order_free sv2 ins ->
+Theorem C12_sample_order_invariant_partial : forall (sv2 : Z -> point -> list point -> list Q) (ins : Z -> point -> list point -> Z), oracle_order_free sv2 ins ->
   forall D d k pts pts', Permutation pts pts' ->
   evalR [] (geo_entropy_expr sv2 ins D d k pts) = evalR [] (geo_entropy_expr sv2 ins D d k pts').
 Proof. exact row_perm_invariant. Qed.
-Print Assumptions C12_sample_order_invariant.
+Print Assumptions C12_sample_order_invariant_partial.
 
 (* ANY map that preserves the pairwise squared distances of the sample (translations, rotations, reflections that
    keep the grid) leaves the estimate -- the whole expression -- unchanged, provided the SVD data of every mapped
    neighbourhood are unchanged; in particular every translation by a grid vector *)
-Theorem C12_translation_and_isometry_invariant :
+Theorem C12_translation_and_isometry_invariant_partial :
   (forall (sv2 : Z -> point -> list point -> list Q) (ins : Z -> point -> list point -> Z) D d k f pts,
      (forall p q, In p pts -> In q pts -> d2 (f p) (f q) = d2 p q) ->
      (forall p, In p pts -> ins D (f p) (map f (nbrs k pts p)) = ins D p (nbrs k pts p)) ->
@@ -69,11 +70,11 @@ Theorem C12_translation_and_isometry_invariant :
      (forall p, In p pts -> sv2 D (shift t p) (map (shift t) (nbrs k pts p)) = sv2 D p (nbrs k pts p)) ->
      geo_entropy_expr sv2 ins D d k (map (shift t) pts) = geo_entropy_expr sv2 ins D d k pts).
 Proof. exact (conj isometry_invariant shift_invariant). Qed.
-Print Assumptions C12_translation_and_isometry_invariant.
+Print Assumptions C12_translation_and_isometry_invariant_partial.
 
 (* rotation by a rational orthogonal matrix with denominator m (image on the m-times finer grid, all grid squared
    distances times m^2): the estimate is unchanged *)
-Theorem C12_rotation_invariant : forall (sv2 : Z -> point -> list point -> list Q) (ins : Z -> point -> list point -> Z) m D d k f pts,
+Theorem C12_rotation_invariant_partial : forall (sv2 : Z -> point -> list point -> list Q) (ins : Z -> point -> list point -> Z) m D d k f pts,
   (0 < m)%Z -> (0 < D)%Z -> pts <> [] ->
   (forall p q, In p pts -> In q pts -> d2 (f p) (f q) = (m * m * d2 p q)%Z) ->
   (forall p, In p pts -> rho_ok D (rho2 k pts p) = true) ->
@@ -81,13 +82,13 @@ Theorem C12_rotation_invariant : forall (sv2 : Z -> point -> list point -> list 
   (forall p, In p pts -> Forall2 (sv_related 1) (sv2 D p (nbrs k pts p)) (sv2 (m * D)%Z (f p) (map f (nbrs k pts p)))) ->
   evalR [] (geo_entropy_expr sv2 ins (m * D) d k (map f pts)) = evalR [] (geo_entropy_expr sv2 ins D d k pts).
 Proof. exact rotation_invariant. Qed.
-Print Assumptions C12_rotation_invariant.
+Print Assumptions C12_rotation_invariant_partial.
 
 (* scaling the real sample by the positive rational a = c/e adds exactly d * ln a, provided the radius guards do not
    trigger, the inside-counts are unchanged and the squared singular values are multiplied by a^2 with unchanged
    guard outcomes; and the common generalisation of all laws: a map multiplying all real squared distances by
    kappa adds (d/2) ln kappa *)
-Theorem C12_scale_and_similarity_law :
+Theorem C12_scale_and_similarity_law_partial :
   (forall (sv2 : Z -> point -> list point -> list Q) (ins : Z -> point -> list point -> Z) c e D d k pts,
      (0 < c)%Z -> (0 < e)%Z -> (0 < D)%Z -> pts <> [] ->
      (forall p, In p pts -> rho_ok D (rho2 k pts p) = true /\ rho_ok (e * D) (rho2 k (map (scale c) pts) (scale c p)) = true) ->
@@ -105,7 +106,21 @@ Theorem C12_scale_and_similarity_law :
      evalR [] (geo_entropy_expr sv2 ins D' d k (map f pts)) =
      (evalR [] (geo_entropy_expr sv2 ins D d k pts) + INR d / 2 * ln (kappa alpha beta D D'))%R).
 Proof. exact (conj scale_law similarity_law). Qed.
-Print Assumptions C12_scale_and_similarity_law.
+Print Assumptions C12_scale_and_similarity_law_partial.
+
+(* with the exact rational ellipsoid count of Model/GeoEllipsoid.v in place of [ins] (every dimension), translation and
+   sample-order invariance need a hypothesis on the singular values ONLY *)
+Theorem C12_exact_ellipsoid_count_needs_no_hypothesis_partial :
+  (forall (sv2 : Z -> point -> list point -> list Q) D d k t pts,
+     Forall (fun p => length p <= length t)%nat pts ->
+     (forall p, In p pts -> sv2 D (shift t p) (map (shift t) (nbrs k pts p)) = sv2 D p (nbrs k pts p)) ->
+     geo_entropy_expr sv2 (ins_x d) D d k (map (shift t) pts) = geo_entropy_expr sv2 (ins_x d) D d k pts) /\
+  (forall (sv2 : Z -> point -> list point -> list Q) d,
+     (forall D p l l', Permutation l l' -> sv2 D p l = sv2 D p l') ->
+     forall D k pts pts', Permutation pts pts' ->
+     evalR [] (geo_entropy_expr sv2 (ins_x d) D d k pts) = evalR [] (geo_entropy_expr sv2 (ins_x d) D d k pts')).
+Proof. exact (conj shift_invariant_exact_count row_perm_invariant_exact_count). Qed.
+Print Assumptions C12_exact_ellipsoid_count_needs_no_hypothesis_partial.
 
 (* d = 1: the SVD data are computed by the model, NO hypothesis on them remains: order, isometries (translations and
    reflections), scaling by any positive rational *)
